@@ -681,8 +681,25 @@ class Interp(object):
         raise Unsupported('DeclRefExpr rvalue %s' % rd['kind'])
 
     def r_MemberExpr(self, st, e):
-        # rvalue member of an rvalue struct (rare)
-        raise Unsupported('member of rvalue at %s' % where(e))
+        # member of an rvalue struct (a function returning a small struct by value: `find(...).slot`): the value is
+        # materialised in a temporary of the frame and read through the ordinary load path
+        base = e['inner'][0]
+        rec, name, foff, fty = self.ix.field_info(e['referencedMemberDecl'])
+        bty = self.ty(base)
+        out = []
+        for s2, v in self.rval(st, base):
+            if v.t[0] != 'blob':
+                raise Unsupported('member of rvalue (not a struct value) at %s' % where(e))
+            oid = 'tmp:rv:%s:%s:%s' % (self.fn, e.get('_line'), e.get('_col'))
+            if oid in s2.objs:
+                s2.objs.pop(oid)
+            s2.new_obj(oid, 'local', self.sizeof(bty))
+            s2.frames[-1]['#' + oid] = oid
+            mem.store_bytes(s2, s2.objs[oid], ZERO, list(v.t[1]))
+            val = self.load(s2, oid, C(foff), fty, e)
+            if val is not None:
+                out.append((s2, val))
+        return out
 
     def r_ImplicitCastExpr(self, st, e):
         return self.cast(st, e)
@@ -808,6 +825,49 @@ class Interp(object):
             return (op, a, b)
         return C(res if op == 'eq' else 1 - res)
 
+    def equality_pairs(self, st, a, b):
+        """Byte pairs (p, q) such that a == b holds iff all p == q - for values assembled from bytes.  None when the terms are
+        not of that shape (or it is the trivial single pair)."""
+        a, b = st.canon(a), st.canon(b)
+
+        def vs_zero(t, acc):
+            t = st.canon(t)
+            if is_const(t):
+                return t[1] == 0 or acc.append((t, ZERO)) is None
+            if t[0] == 'cat':
+                for lane in t[1]:
+                    if not vs_zero(lane, acc):
+                        return False
+                return True
+            if t[0] == 'xor' and len(t) == 3:
+                x, y = st.canon(t[1]), st.canon(t[2])
+                if x[0] == 'cat' or y[0] == 'cat':
+                    n = max(len(x[1]) if x[0] == 'cat' else 1, len(y[1]) if y[0] == 'cat' else 1)
+                    for k in range(n):
+                        acc.append((mk_byte(x, k), mk_byte(y, k)))
+                else:
+                    acc.append((x, y))
+                return True
+            if t[0] == 'or' and len(t) == 3:
+                return vs_zero(t[1], acc) and vs_zero(t[2], acc)
+            acc.append((t, ZERO))
+            return True
+        acc = []
+        if b == ZERO or a == ZERO:
+            t = a if b == ZERO else b
+            if t[0] not in ('cat', 'xor', 'or'):
+                return None
+            if not vs_zero(t, acc):
+                return None
+        elif a[0] == 'cat' and b[0] == 'cat' and len(a[1]) == len(b[1]):
+            acc = list(zip(a[1], b[1]))
+        else:
+            return None
+        acc = [(p_, q_) for p_, q_ in acc if not (is_const(p_) and is_const(q_) and p_[1] == q_[1])]
+        if len(acc) < 2 and not (b == ZERO or a == ZERO):
+            return None
+        return acc
+
     def assume(self, st, cond, truth):
         """Refine st with cond == truth; False if infeasible."""
         k = cond[0]
@@ -854,6 +914,29 @@ class Interp(object):
                             st.touch()
                         else:
                             st.neq.add(frozenset((x, y)))
+                return True
+            pairs = self.equality_pairs(st, a, b)
+            if pairs is not None:
+                # an equality between values assembled from bytes (integers built with shifts, XOR / OR folds compared with
+                # zero): it holds iff every byte pair is equal
+                if truth:
+                    ok = True
+                    for p_, q_ in pairs:
+                        ok = st.union(p_, q_) and ok
+                    return ok
+                open_ = [(p_, q_) for p_, q_ in pairs if st.canon(p_) != st.canon(q_)]
+                if not open_:
+                    return False
+                if len(open_) == 1:
+                    return st.add_neq(open_[0][0], open_[0][1])
+                if all(st.known_neq(p_, q_) is False and st.canon(p_) == st.canon(q_) for p_, q_ in pairs):
+                    return False
+                got = set(frozenset((st.canon(p_), st.canon(q_))) for p_, q_ in pairs)
+                for pname, tp in (getattr(self, 'tracked_preds', None) or {}).items():
+                    if got == set(frozenset((st.canon(a_), st.canon(b_))) for a_, b_ in tp):
+                        st.tags = dict(st.tags)
+                        st.tags['pred:' + pname] = False
+                st.neq.add(frozenset((st.canon(a), st.canon(b))))
                 return True
             if truth:
                 return st.union(a, b)
